@@ -1,0 +1,66 @@
+//go:build verif
+// +build verif
+
+package overloader
+
+import "sync/atomic"
+
+// Verification hooks (build tag verif only): named gate points inside the limiters, and
+// accessors that let a harness drive a limiter without wall-clock ticks.
+
+var verifGateFn atomic.Value // func(point string)
+
+// VerifSetGate installs (or, with nil, removes) the gate controller.
+func VerifSetGate(fn func(point string)) { verifGateFn.Store(fn) }
+
+func verifGate(point string) {
+	if v := verifGateFn.Load(); v != nil {
+		if fn := v.(func(point string)); fn != nil {
+			fn(point)
+		}
+	}
+}
+
+// VerifQPS is a handle on a rate limiter whose ticker is stopped, so that refill ticks are
+// issued by the harness.
+type VerifQPS struct{ q *qpsLimiter }
+
+// VerifNewQPS creates a rate limiter and stops its ticker.
+func VerifNewQPS(maxQPS int32, interval int64) *VerifQPS {
+	q := newQPSLimiter(maxQPS, durationOf(interval))
+	q.stopTicker()
+	return &VerifQPS{q: q}
+}
+
+// Take calls the limiter's take.
+func (v *VerifQPS) Take() bool { return v.q.take() }
+
+// Tick calls the limiter's updateToken once.
+func (v *VerifQPS) Tick() { v.q.updateToken() }
+
+// Tokens returns the current token count.
+func (v *VerifQPS) Tokens() int32 { return atomic.LoadInt32(&v.q.tokens) }
+
+// Once returns the refill amount per tick.
+func (v *VerifQPS) Once() int32 { return v.q.once }
+
+// Limit returns the bucket capacity.
+func (v *VerifQPS) Limit() int32 { return v.q.getLimit() }
+
+// VerifConn is a handle on a connection limiter.
+type VerifConn struct{ c *connLimiter }
+
+// VerifNewConn creates a connection limiter.
+func VerifNewConn(maxConn int32) *VerifConn { return &VerifConn{c: newConnLimiter(maxConn)} }
+
+// Take calls take.
+func (v *VerifConn) Take() bool { return v.c.take() }
+
+// Release calls release.
+func (v *VerifConn) Release() { v.c.release() }
+
+// Update calls update.
+func (v *VerifConn) Update(n int32) { v.c.update(n) }
+
+// Now returns the admitted count.
+func (v *VerifConn) Now() int32 { return v.c.getNow() }
